@@ -68,6 +68,9 @@ type e2ePoint struct {
 	// the goroutine stays held until the transfer is over (at most this long) and the held time counts, because a
 	// stop has to end the transfer without waiting for that operation
 	HoldMs int `json:"hold_ms,omitempty"`
+	// Total > 0 (instead of Nth): the occurrence at which the running total of the hook's first argument reaches Total
+	// (pipe.sav.got: the piece that completes a file of that size)
+	Total int `json:"total,omitempty"`
 }
 
 type e2eStop struct {
@@ -220,7 +223,7 @@ func e2eExec(c *e2eCase, work string, tr *vTrace, logLines bool) (*e2eResult, ma
 		"overwrite": o.Overwrite, "directory": o.Directory, "windows": o.Windows,
 		"nfaults": len(c.Plan.Faults), "stop": "none", "stopdel": false, "pause": c.Plan.Pause != nil || (c.Plan.Point != nil && c.Plan.Point.Kind == "pause"),
 		"silence": c.Plan.Silence != nil || c.Plan.WriteErr != nil || c.Plan.DstErr || c.Plan.Shrink != nil || c.Plan.Mutate != nil ||
-			(c.Plan.Point != nil && (c.Plan.Point.Kind == "silence" || c.Plan.Point.Kind == "writeerr")), "timeout": o.Timeout,
+			(c.Plan.Point != nil && (c.Plan.Point.Kind == "silence" || c.Plan.Point.Kind == "writeerr" || c.Plan.Point.Kind == "dstfull")), "timeout": o.Timeout,
 		"fkind": e2ePlanKind(&c.Plan), "prehs": e2ePreHandshake(&c.Plan)}
 	{
 		fl := []map[string]any{}
@@ -269,6 +272,7 @@ func e2eExec(c *e2eCase, work string, tr *vTrace, logLines bool) (*e2eResult, ma
 			if o.Upload {
 				dataDir = "c2s"
 			}
+			e2ePointDst = dst
 			pointFired = e2eInstallPoint(pt, c.ID, tr, w, client, server, f, dataDir, emitLive, &stopAt, func() {
 				pauseMu.Lock()
 				nPauses++
